@@ -22,7 +22,7 @@ def is_nan(x):
 
 class C03(Harness):
     pid = "C03"
-    labels = ("one-value-per-step", "index-is-cutoff-plus-fh", "index-increasing", "cutoff-after-fit", "cutoff-after-update", "finite-values", "shift-invariant-values", "shift-invariant-index")
+    labels = ("one-value-per-step", "index-is-cutoff-plus-fh", "index-increasing", "cutoff-after-fit", "cutoff-after-update", "finite-values", "shift-invariant-values", "shift-invariant-index", "value-independent-of-other-steps")
     stubs = (
         "regressors of the reducers := recording stub with uninterpreted outputs per fitted estimator and feature row",
         "members of composites := recording member forecasters (uninterpreted forecasts); pipeline transformer := elementwise uninterpreted pair",
@@ -65,6 +65,7 @@ class C03(Harness):
         nb = choice("nb", 0, 2)
         inp = {"n": n, "s0": ctx.fresh_int("s0"), "delta": ctx.fresh_int("delta"), "y": fresh_reals(ctx, "y", n), "u": fresh_reals(ctx, "u", nb), "fh": [int(h) for h in hs]}
         inp["absolute"] = bool(ctx.fresh_bool("absolute"))
+        inp["as_unsorted_index"] = bool(ctx.fresh_bool("as_unsorted_index")) if K > 1 else False
         inp["range_index"] = bool(ctx.fresh_bool("range_index"))
         if k in REQUIRED_FH:
             inp["fh_in_fit"] = True
@@ -166,10 +167,12 @@ class C03(Harness):
 
         y = ser(inp["y"], origin)
         final_cut = origin + n - 1 + nb
+        steps = list(reversed(inp["fh"])) if inp.get("as_unsorted_index") else list(inp["fh"])
+        mk = (lambda v: pd.Index(v)) if inp.get("as_unsorted_index") else (lambda v: np.array(v))
         if inp["absolute"]:
-            fh = FH(np.array([final_cut + h for h in inp["fh"]]), is_relative=False)
+            fh = FH(mk([final_cut + h for h in steps]), is_relative=False)
         else:
-            fh = np.array(inp["fh"])
+            fh = mk(steps)
         out = {}
         if inp["fh_in_fit"]:
             f.fit(y, fh=fh)
@@ -182,6 +185,13 @@ class C03(Harness):
         p = f.predict() if inp["fh_in_fit"] else f.predict(fh)
         out["index"] = L(p.index)
         out["values"] = L(p.values)
+        if not inp["fh_in_fit"] and k not in REQUIRED_FH and len(inp["fh"]) > 1:
+            # the value under a label must not depend on which other steps were requested
+            singles = []
+            for h in inp["fh"]:
+                q = f.predict(FH(np.array([final_cut + h]), is_relative=False) if inp["absolute"] else np.array([h]))
+                singles.append([L(q.index), L(q.values)])
+            out["singles"] = singles
         return out
 
     def scenario(self, W, inp, cell):
@@ -211,6 +221,11 @@ class C03(Harness):
                 P.check("index-increasing", a < b)
             for v in o["values"]:
                 P.check("finite-values", not is_nan(v) and v is not None)
+            for i, sg in enumerate(o.get("singles", [])):
+                P.check("value-independent-of-other-steps", len(sg[0]) == 1)
+                if len(sg[0]) == 1:
+                    P.eq("value-independent-of-other-steps", sg[0][0], c + fh[i])
+                    P.eq("value-independent-of-other-steps", sg[1][0], o["values"][i])
         if "b" in out:
             for va, vb in zip(out["a"]["values"], out["b"]["values"]):
                 P.eq("shift-invariant-values", va, vb)
